@@ -47,8 +47,37 @@ pub uninterp spec fn issued_objects(m: Map<KeyIdentifier, IssuedCertificate>) ->
     ])
     U.impl('impl ManifestBuilder', [
         U.fn(PUB, 'ManifestBuilder', 'new', requires=[('km', km)], ensures=[('empty', 'r.revision == revision && r.entries@ == Map::<ObjectName, Hash>::empty()')]),
-        U.fn(PUB, 'ManifestBuilder', 'with_objects', external_body=True, requires=[('km', km)],
-             ensures=[('lists_crl_and_exactly_the_objects', 'r.entries@ == expected_entries(*crl, published_objects@)'), ('revision_kept', 'r.revision == self.revision')]),
+        # `mut self` receiver: R22; by-reference HashMap loop: R8
+        U.fn(PUB, 'ManifestBuilder', 'with_objects', hash_loops=(0,), attrs=['#[verifier::loop_isolation(false)]'],
+             requires=[('km', km), ('fresh_builder', 'self.entries@ == Map::<ObjectName, Hash>::empty()')],
+             ensures=[('lists_crl_and_exactly_the_objects', 'r.entries@ =~= expected_entries(*crl, published_objects@)'), ('revision_kept', 'r.revision == self.revision')],
+             loops={0: {'iter': 'vx_it', 'invariant': [
+                 ('km', km),
+                 ('pairs', '''vx_it.seq().len() == published_objects@.len() && (forall |i: int| 0 <= i < vx_it.seq().len() ==> published_objects@.contains_key(*(#[trigger] vx_it.seq()[i]).0)
+                        && published_objects@[*vx_it.seq()[i].0] == *vx_it.seq()[i].1) && vx_it.seq().no_duplicates()'''),
+                 ('all_listed', 'forall |n: ObjectName| #[trigger] published_objects@.contains_key(n) ==> exists |j: int| 0 <= j < vx_it.seq().len() && *(#[trigger] vx_it.seq()[j]).0 == n'),
+                 ('revision', 'vx_self.revision == self.revision'),
+                 ('only_crl_and_objects', 'forall |n: ObjectName| #[trigger] vx_self.entries@.contains_key(n) ==> n == crl.name || published_objects@.contains_key(n)'),
+                 ('crl_listed', 'vx_self.entries@.contains_key(crl.name)'),
+                 ('entry_done_or_to_come', '''forall |n: ObjectName| #[trigger] published_objects@.contains_key(n) ==>
+                        (vx_self.entries@.contains_key(n) && vx_self.entries@[n] == published_objects@[n].hash)
+                        || exists |j: int| vx_it.index@ <= j < vx_it.seq().len() && *(#[trigger] vx_it.seq()[j]).0 == n'''),
+                 ('crl_hash_unless_an_object_has_its_name', '!published_objects@.contains_key(crl.name) ==> vx_self.entries@[crl.name] == crl.hash'),
+             ]}},
+             ghost=[
+                 (('loop_start', 0), '''let ghost g_e = vx_self.entries@; let ghost g_i = vx_it.index@ as int;
+                    proof { assert((name, object) == vx_it.seq()[g_i]); assert(published_objects@.contains_key(*name) && published_objects@[*name] == *object); }'''),
+                 (('loop_end', 0), '''proof {
+                    assert(vx_self.entries@ == g_e.insert(*name, object.hash));
+                    assert forall |n: ObjectName| #[trigger] published_objects@.contains_key(n) implies
+                        (vx_self.entries@.contains_key(n) && vx_self.entries@[n] == published_objects@[n].hash)
+                        || exists |j: int| g_i + 1 <= j < vx_it.seq().len() && *(#[trigger] vx_it.seq()[j]).0 == n by {
+                        if n != *name && !(g_e.contains_key(n) && g_e[n] == published_objects@[n].hash) {
+                            let j = choose |j: int| g_i <= j < vx_it.seq().len() && *(#[trigger] vx_it.seq()[j]).0 == n; assert(j != g_i);
+                        }
+                    }
+                 }'''),
+             ]),
     ])
     U.impl('impl TrustAnchorObjects', [
         U.fn(TA, 'TrustAnchorObjects', 'next_update', external_body=True, ensures=[('assumed', 'r == next_update_of(weeks)')]),
